@@ -1,7 +1,77 @@
-//! CommodityChannelIndex — reference model (TODO).
+//! CommodityChannelIndex. Doc: 1 value — `oscillator`, "most of the time in the range around [-1; +1]".
+//! Linked formula (wikipedia): CCI = (1/0.015) * (p - SMA_n(p)) / MD_n(p), MD = mean absolute deviation;
+//! the constant 0.015 puts most values between -100 and +100, so the documented range [-1; +1] is that
+//! divided by 100:  value = (1/1.5) * (p - SMA_n(p)) / MD_n(p).  Undefined (0/0) on a window without deviation.
+//! 1 signal — value goes above `zone`: full sell; value goes below `-zone`: full buy; otherwise none.
 use super::*;
+use std::collections::VecDeque;
 
-/// returns None until the reference is written
-pub fn make(_cfg: &Cfg, _c0: &RC) -> Option<Box<dyn IndRef>> {
-	None
+#[derive(Clone)]
+struct Cci {
+	n: usize,
+	zone: f64,
+	src: String,
+	cci: rm::Win,
+	cands: VecDeque<RC>,
+	prev: f64,
+}
+
+/// do two candles have exactly the same source quantity (an exact predicate of the inputs)?
+fn same_src(a: &RC, b: &RC, kind: &str) -> bool {
+	match kind {
+		"close" => a.c == b.c,
+		"open" => a.o == b.o,
+		"high" => a.h == b.h,
+		"low" => a.l == b.l,
+		"hl2" => a.h == b.h && a.l == b.l,
+		"tp" => a.h == b.h && a.l == b.l && a.c == b.c,
+		"volume" => a.v == b.v,
+		"volumed_price" => a.h == b.h && a.l == b.l && a.c == b.c && a.v == b.v,
+		o => panic!("unknown source {o}"),
+	}
+}
+
+pub fn make(cfg: &Cfg, c0: &RC) -> Option<Box<dyn IndRef>> {
+	let src = cfg.src("source");
+	let s0 = source(c0, &src);
+	let n = cfg.int("period");
+	Some(Box::new(Cci {
+		n,
+		zone: cfg.float("zone"),
+		cands: (0..n).map(|_| *c0).collect(),
+		cci: rm::Win::new_q(rm::WinKind::Cci, n, s0),
+		// † follows the implementation: the oscillator of the constant prehistory is 0/0; yata starts from 0
+		prev: 0.0,
+		src,
+	}))
+}
+
+impl IndRef for Cci {
+	fn values(&mut self, c: &RC) -> Vec<Q> {
+		let s = source(c, &self.src);
+		let v = self.cci.step(s).scale(1.0 / 1.5);
+		self.cands.push_back(*c);
+		while self.cands.len() > self.n {
+			self.cands.pop_front();
+		}
+		// † follows the implementation: the formula is 0/0 on a window of n identical values; yata's stated
+		// branch ("deviation is not positive") gives 0 there. "All n values are identical" is an exact predicate.
+		if (1..self.n).all(|i| same_src(&self.cands[i - 1], &self.cands[i], &self.src)) {
+			return vec![Q::exact(0.0)];
+		}
+		vec![v]
+	}
+	fn signals(&mut self, _c: &RC, own: &[f64]) -> Vec<Sig> {
+		let v = own[0];
+		let z = self.zone;
+		// † follows the implementation: "goes above" = is strictly above now and was not strictly above before
+		// (ties on the zone border are not settled by the documentation); likewise for "goes below".
+		// (yata's additional "not the same signal as one step before" latch can never take effect: the same
+		// one-sided condition cannot hold on two consecutive steps.)
+		let sell = v > z && self.prev <= z;
+		let buy = v < -z && self.prev >= -z;
+		self.prev = v;
+		vec![sig_sign(buy as i32 - sell as i32)]
+	}
+	indref!(Cci);
 }
